@@ -6,7 +6,9 @@ import (
 	"io"
 	"net"
 	"net/http"
+	"strings"
 	"sync"
+	"time"
 )
 
 // recServer is a scripted MCP server (Streamable or legacy SSE) written without the library. It records
@@ -38,7 +40,17 @@ type legacySess struct {
 
 func newRecServer(legacy, alwaysSess bool) *recServer {
 	s := &recServer{legacy: legacy, alwaysSess: alwaysSess, mode: mHealthy, sessions: map[string]*legacySess{}, conns: map[net.Conn]bool{}}
-	ln, err := net.Listen("tcp", "127.0.0.1:0")
+	// On a shared machine every loopback port may momentarily sit in TIME_WAIT; that passes by itself, so the
+	// harness waits for a port (a resource wait, no decision depends on it) before it gives up.
+	var ln net.Listener
+	var err error
+	for attempt := 0; attempt < 80; attempt++ {
+		ln, err = net.Listen("tcp", "127.0.0.1:0")
+		if err == nil || !strings.Contains(err.Error(), "address already in use") {
+			break
+		}
+		time.Sleep(250 * time.Millisecond)
+	}
 	if err != nil {
 		panic("recServer: " + err.Error())
 	}
